@@ -31,7 +31,7 @@ ASSUMPTIONS = [
     "a ValueError/UnicodeError for a name holding NUL or a non-UTF-8 byte counts as a refusal",
 ]
 MIN = {"quick": {"evaluations": 198000, "nontrivial": 185000, "outcomes": 7},
-       "thorough": {"evaluations": 1500000, "nontrivial": 1000000, "outcomes": 6}}
+       "thorough": {"evaluations": 2600000, "nontrivial": 2450000, "outcomes": 7}}
 
 NAME_TOKENS = ["..", ".", "/", "a", "d", "root", "root-sib", "-sib", "\\", "\x00"]
 SEGMENTS = ["", ".", "..", "a", "d", "/", "\\", "\x00", "../", "a/", "/a", "..a", "a..", "./", "..\\", "../root-sib",
@@ -194,7 +194,9 @@ class WebEnv:
         return raw, hung, logged, list(_AUD["events"])
 
     def judge(self, target, raw, hung, events):
+        import re
         bad = []
+        shown = re.sub(rb"(?im)^(Date|Last-Modified): [^\r\n]*", rb"\1: -", raw[:600])
         outside = []
         for ev, p in events:
             if isinstance(p, int) or p is None:
@@ -208,9 +210,9 @@ class WebEnv:
                 outside.append((ev, q[len(self.realbase):]))
         if outside:
             bad.append(("static.File:accessed-path-outside-root",
-                        {"target": target, "accessed": outside[:4], "response": raw[:120]}))
+                        {"target": target, "accessed": outside[:4], "response": shown[:120]}))
         if MARK in raw:
-            bad.append(("static.File:served-outside-content", {"target": target, "response": raw[:300]}))
+            bad.append(("static.File:served-outside-content", {"target": target, "response": shown[:300]}))
         if hung:
             bad.append(("static.File:hang", {"target": target}))
         status = raw[9:12].decode("latin-1") if raw.startswith(b"HTTP/1.") else "none"
